@@ -214,8 +214,18 @@ func (w *world) judgeStore(id, when string, model map[string]*acct) {
 
 // ---- lane S -------------------------------------------------------------------
 
-func laneSeq(c *ev.Ctx, id string, r *rand.Rand, steps int) {
-	env, err := fx.New("c17s", gw.Config{Chown: true}, 1)
+// cacheCfg: "default" (TTL 120 s), "ttl1" (entries expire after 1 s and are pruned every second; the history waits
+// for expiry a few times), "disabled" (--iam-cache-disable): the documented cache settings.
+func laneSeq(c *ev.Ctx, id string, r *rand.Rand, steps int, cacheCfg string) {
+	cfg := gw.Config{Chown: true}
+	switch cacheCfg {
+	case "ttl1":
+		cfg.Env = []string{"VGW_IAM_CACHE_TTL=1", "VGW_IAM_CACHE_PRUNE=1"}
+	case "disabled":
+		cfg.Env = []string{"VGW_IAM_CACHE_DISABLE=true"}
+	}
+	waits := 0
+	env, err := fx.New("c17s", cfg, 1)
 	if err != nil {
 		c.Inconclusive("gateway start: " + err.Error())
 		return
@@ -235,6 +245,16 @@ func laneSeq(c *ev.Ctx, id string, r *rand.Rand, steps int) {
 		ak := keys[r.Intn(len(keys))]
 		cur := model[ak]
 		x := r.Intn(10)
+		if cacheCfg == "ttl1" && waits < 3 && r.Intn(8) == 0 {
+			// let every cache entry expire (and the pruner run); what the store says must still be in force
+			waits++
+			time.Sleep(1300 * time.Millisecond)
+			for _, k := range keys {
+				w.judgeAccount(id, "after-cache-expiry", k, model[k], olds[k])
+			}
+			shape = append(shape, "wait-for-expiry")
+			c.Distinct("S|after-cache-expiry")
+		}
 		switch {
 		case x < 3: // create
 			a := acct{w.secret(), roles[r.Intn(3)], 1000 + r.Intn(50000), 1000 + r.Intn(50000)}
@@ -719,7 +739,7 @@ func laneConc(c *ev.Ctx, id string, seed int64, race bool) {
 }
 
 func Run(c *ev.Ctx) int {
-	c.Assume("one gateway process (the property's quantifier: changes through one gateway); internal IAM store, cache as shipped (TTL 120 s, far longer than any case, so expiry never rescues a stale entry)")
+	c.Assume("one gateway process (the property's quantifier: changes through one gateway); internal IAM store; cache as shipped (TTL 120 s, far longer than any case, so expiry never rescues a stale entry) and, in two of five sequential histories, with TTL/prune interval 1 s (with waits for expiry) or disabled")
 	c.Assume("harness and gateway run as root so that --chuid/--chgid chown works; lookups are signed ListBuckets requests")
 	var wg sync.WaitGroup
 	sem := make(chan struct{}, 8)
@@ -732,7 +752,7 @@ func Run(c *ev.Ctx) int {
 			f()
 		}()
 	}
-	nSeq := c.Pick(10, 200)
+	nSeq := c.Pick(10, 600)
 	rs := c.Rng("seq")
 	for i := 0; i < nSeq; i++ {
 		id := fmt.Sprintf("S/%d", i)
@@ -741,10 +761,11 @@ func Run(c *ev.Ctx) int {
 		if !c.Want(id) {
 			continue
 		}
-		run(func() { laneSeq(c, id, rand.New(rand.NewSource(seed)), steps) })
+		cc := []string{"default", "default", "default", "ttl1", "disabled"}[i%5]
+		run(func() { laneSeq(c, id, rand.New(rand.NewSource(seed)), steps, cc) })
 	}
 	for i, op := range []string{"delete", "update-secret"} {
-		reps := c.Pick(2, 6)
+		reps := c.Pick(2, 12)
 		for k := 0; k < reps; k++ {
 			id := fmt.Sprintf("G/%d/%d", i, k)
 			if !c.Want(id) {
@@ -754,7 +775,7 @@ func Run(c *ev.Ctx) int {
 			run(func() { laneGate(c, id, op, "") })
 		}
 	}
-	nConc := c.Pick(10, 150)
+	nConc := c.Pick(10, 400)
 	rc := c.Rng("conc")
 	for i := 0; i < nConc; i++ {
 		id := fmt.Sprintf("C/%d", i)
